@@ -102,9 +102,19 @@ fn run_worker(page_pool: PagePool, command_rx: Receiver<IoPacket>) {
                 let io_uring_res = completion_event.result();
                 #[cfg(feature = "verif")]
                 let io_uring_res = crate::verif::io::on_cqe(&command, io_uring_res);
-                let syscall_result = if io_uring_res >= 0 { io_uring_res } else { -1 };
+                // (`errno` of this thread is unrelated to the completion: whatever an earlier
+                // syscall left there must not decide whether a failed operation is retried.)
+                let kind_result = if io_uring_res < 0 {
+                    if -io_uring_res == libc::EINTR {
+                        IoKindResult::Retry
+                    } else {
+                        IoKindResult::Err
+                    }
+                } else {
+                    command.kind.get_result(io_uring_res as isize)
+                };
 
-                let result = match command.kind.get_result(syscall_result as isize) {
+                let result = match kind_result {
                     IoKindResult::Ok => Ok(()),
                     IoKindResult::Err => Err(std::io::Error::from_raw_os_error(io_uring_res.abs())),
                     IoKindResult::Retry => {
